@@ -60,11 +60,39 @@ func genCols(r *rng, rich bool) []Col {
 	return cols
 }
 
+func assignIdxKinds(r *rng, ts *TableSpec) {
+	mode := r.Intn(3) // 0: btree everywhere possible, 1: unique key + skip lists, 2: mixed
+	ts.IdxKinds = make([]string, len(ts.Cols))
+	if ts.Wide > 6 {
+		// (B-tree keys: a varchar key must stay below 24 bytes)
+		for _, c := range ts.Cols {
+			if c.Type == TVarchar && mode != 1 {
+				ts.Wide = 6
+			}
+		}
+	}
+	for i := range ts.Cols {
+		switch {
+		case i == 0 && (mode == 1 || (mode == 2 && r.Chance(0.5))):
+			ts.IdxKinds[i] = "uniq"
+		case mode == 0 || (mode == 2 && r.Chance(0.5)):
+			ts.IdxKinds[i] = "btree"
+		}
+	}
+}
+
 func genSqlCfg(r *rng, prop string, tier string) SqlCfg {
 	c := SqlCfg{}
 	nt := 1 + r.Intn(2)
 	for i := 0; i < nt; i++ {
 		c.Tables = append(c.Tables, TableSpec{Name: fmt.Sprintf("t%d", i), Cols: genCols(r, true), Wide: []int{6, 30, 120, 200}[r.Intn(4)]})
+	}
+	if ((prop == "C03" || prop == "C07" || prop == "C09") && r.Chance(0.4)) || os.Getenv("VERIF_FORCE_IDXKINDS") != "" {
+		// the other index kinds (the SQL front end only ever asks for skip lists): B-tree on numeric and
+		// short varchar columns, unique skip list on the key column
+		for i := range c.Tables {
+			assignIdxKinds(r, &c.Tables[i])
+		}
 	}
 	c.Frames = []int{0, 0, 4, 16, 64}[r.Intn(5)]
 	c.NOps = 10 + r.Intn(40)
@@ -87,6 +115,13 @@ func genSqlCfg(r *rng, prop string, tier string) SqlCfg {
 		n := 1 + r.Intn(4)
 		for i := 0; i < n; i++ {
 			c.LateTables = append(c.LateTables, TableSpec{Name: fmt.Sprintf([]string{"u%d", "u%d", "U%d", "Ux%d"}[r.Intn(4)], i), Cols: genCols(r, true), Wide: []int{6, 30, 120}[r.Intn(3)]})
+		}
+		if len(c.Tables[0].IdxKinds) > 0 {
+			for i := range c.LateTables {
+				if r.Chance(0.7) {
+					assignIdxKinds(r, &c.LateTables[i])
+				}
+			}
 		}
 		c.PDDL = 0.1
 		c.PRestart = 0.08
@@ -250,6 +285,21 @@ func richRow(r *rng, ts *TableSpec, k int32) (row []any, plan bool) {
 }
 
 // opFeatures: properties of the operations of a (minimised) replay that known findings key on.
+// sqlFeatures: features of the op list plus those of the configuration (index kinds of the tables).
+func sqlFeatures(cfg *SqlCfg, ops []Op) map[string]bool {
+	f := opFeatures(ops)
+	if cfg != nil {
+		for _, ts := range append(append([]TableSpec{}, cfg.Tables...), cfg.LateTables...) {
+			for _, k := range ts.IdxKinds {
+				if k != "" {
+					f["idx:"+k] = true
+				}
+			}
+		}
+	}
+	return f
+}
+
 func opFeatures(ops []Op) map[string]bool {
 	f := map[string]bool{}
 	var walk func(p *Pred, cols map[string]int, hasOr *bool)
@@ -633,6 +683,7 @@ func (g *sqlGen) next(e *Exec) Op {
 // ---------------------------------------------------------------- the run
 
 type SqlRun struct {
+	openPanic  *PanicInfo
 	Seed       uint64
 	Cfg        SqlCfg
 	Dir        string
@@ -670,7 +721,17 @@ func (sr *SqlRun) minFrames() int {
 	for _, t := range sr.Cfg.LateTables {
 		cols += len(t.Cols)
 	}
-	return 3*cols + 8 // three permanently pinned pages per skip-list index + head-room for a statement
+	n := 3*cols + 8 // three permanently pinned pages per skip-list index + head-room for a statement
+	// the embedded B-tree keeps the pages of its own page pool (up to HASH_TABLE_ENTRY_CHAIN_LEN *
+	// MaxTxnThreadNum * 2 = 96 per index) pinned in the buffer pool: by design it needs a large pool
+	for _, t := range append(append([]TableSpec{}, sr.Cfg.Tables...), sr.Cfg.LateTables...) {
+		for _, k := range t.IdxKinds {
+			if k == "btree" {
+				n += 100
+			}
+		}
+	}
+	return n
 }
 
 // heapRows: full scan with row ids.
@@ -1062,7 +1123,16 @@ func (sr *SqlRun) modelCheckObservable(obs map[string][]string) string {
 }
 
 func (sr *SqlRun) createTable(ts TableSpec, opIdx int) bool {
-	res := sr.S.AutoSQL(createTableSQL(&ts))
+	var res ExecResult
+	if len(ts.IdxKinds) > 0 {
+		res = sr.S.CreateTableAPI(&ts)
+		sr.stat("tables_with_btree_or_unique_index", 1)
+		// (pin accounting per statement is about heap and skip-list pages: the embedded B-tree pins the
+		// pages of its own pool for as long as they stay in it)
+		sr.E.PinCheck = false
+	} else {
+		res = sr.S.AutoSQL(createTableSQL(&ts))
+	}
 	if !res.OK() {
 		sr.Infeasible = fmt.Sprintf("create table %s: %v %v", ts.Name, res.Err, res.Panic)
 		return false
@@ -1113,6 +1183,13 @@ func catalogViolations(su *SUT, specs []*TableSpec, where string) (out [][2]stri
 			wantT := map[ColType]types.TypeID{TInt: types.Integer, TFloat: types.Float, TVarchar: types.Varchar, TBool: types.Boolean}[c.Type]
 			if sc.GetColumn(uint32(i)).GetType() != wantT {
 				viol("schema-changed", fmt.Sprintf("%s: table %s column %s changed type", where, ts.Name, c.Name))
+			}
+			wantK := ""
+			if i < len(ts.IdxKinds) {
+				wantK = ts.IdxKinds[i]
+			}
+			if gotK := indexKindName(sc.GetColumn(uint32(i)).IndexKind()); gotK != wantK || !sc.GetColumn(uint32(i)).HasIndex() {
+				viol("schema-changed", fmt.Sprintf("%s: table %s column %s: index kind %q (has index: %v), created as %q", where, ts.Name, c.Name, gotK, sc.GetColumn(uint32(i)).HasIndex(), wantK))
 			}
 		}
 		if o, dup := oids[tm.OID()]; dup {
@@ -1197,6 +1274,7 @@ func (sr *SqlRun) rowsOfOtherTable(d Divergence) bool {
 
 func (sr *SqlRun) open() bool {
 	s, pi := OpenSUT(sr.Dir+"/db", sr.Cfg.Frames)
+	sr.openPanic = pi
 	if pi != nil {
 		return false
 	}
@@ -1204,6 +1282,7 @@ func (sr *SqlRun) open() bool {
 	if sr.E != nil {
 		sr.E.S = s
 	}
+	s.WarmIndexes()
 	return true
 }
 
@@ -1305,8 +1384,7 @@ func (sr *SqlRun) execute(ops []Op, gen *sqlGen) {
 				if op.Kind == "restart-crash" {
 					prop = "C01"
 				}
-				_, pi := OpenSUT(sr.Dir+"/db", cfg.Frames)
-				sr.viol(prop, "restart-panic", pi.String(), i)
+				sr.viol(prop, "restart-panic", sr.openPanic.String(), i)
 				return
 			}
 			kind := "clean"
@@ -1352,6 +1430,8 @@ func (sr *SqlRun) execute(ops []Op, gen *sqlGen) {
 				prop := "C06"
 				if op.Kind == "abort" {
 					prop = "C03"
+				} else if op.Stmt != nil && op.Stmt.Join != nil {
+					prop = "C11"
 				}
 				sr.viol(prop, "statement-panic", fmt.Sprintf("%s %s: %s", op.Kind, opSQL(op), e.Panic.String()), i)
 				sr.dead = true
@@ -1574,6 +1654,9 @@ func runSqlSim(run int, seed uint64) RunReport {
 	report := func(src *SqlRun, v Violation) {
 		if v.Property != flProp {
 			other[v.Property+":"+v.Class]++
+			if os.Getenv("VERIF_PRINT_OTHER") != "" {
+				fmt.Fprintf(os.Stderr, "OTHER %s %s %s\n", v.Property, v.Class, v.Detail)
+			}
 			return
 		}
 		if seen[v.Key()] {
@@ -1581,7 +1664,7 @@ func runSqlSim(run int, seed uint64) RunReport {
 		}
 		seen[v.Key()] = true
 		oj, _ := marshalOps(src.Ops)
-		v.Features = opFeatures(src.Ops)
+		v.Features = sqlFeatures(&src.Cfg, src.Ops)
 		rf := ReplayFile{Property: v.Property, Driver: "sqlsim", Seed: seed, Tier: flTier, Cfg: mustJSON(src.Cfg), Ops: oj, Faults: v.Faults, Violation: v, OpsCount: len(src.Ops)}
 		if len(seen) <= 2 && mayMinimise() {
 			if m := minimiseSql(src, v); m != nil {
@@ -1695,7 +1778,7 @@ func minimiseSql(sr0 *SqlRun, v Violation) *ReplayFile {
 		return nil
 	}
 	best = *got
-	best.Features = opFeatures(ops)
+	best.Features = sqlFeatures(&cfg, ops)
 	opsJSON, _ := marshalOps(ops)
 	return &ReplayFile{Property: best.Property, Driver: "sqlsim", Seed: sr0.Seed, Tier: flTier, Cfg: mustJSON(cfg), Ops: opsJSON, Faults: best.Faults, Violation: best, Minimised: true, OpsCount: len(ops)}
 }
